@@ -22,6 +22,7 @@ import numpy as np
 from fixtures import v4 as fv4
 
 from katdal.chunkstore_npy import NpyFileChunkStore   # noqa: E402
+from katdal.chunkstore_dict import DictChunkStore   # noqa: E402
 from katdal.datasources import TelstateDataSource, view_l0_capture_stream, _align_chunk_info   # noqa: E402
 from katdal.vis_flags_weights import ChunkStoreVisFlagsWeights   # noqa: E402
 
@@ -318,3 +319,57 @@ def blocks_under(store, info, name, index, errors):
             except Exception as e:     # noqa: BLE001
                 res.append((tuple(int(x) for x in bi), e))
     return res, a
+
+
+class ViewHistory(History):
+    """The same interface on a DictChunkStore: the store hands out VIEWS of arrays it owns.  A chunk is in the store iff
+    its array is there and holds the dumps of the chunk; steps are ['arr', array, dumps_held, version] (dumps_held = 0:
+    the array is removed; otherwise a chunk boundary of the array's dump chunking) and ['load', index]."""
+
+    def __init__(self, case, tmp=None):
+        self.case = case
+        self.vals = {}
+        self.info = {}
+        self.ops = []
+        self.held = {}          # array -> (dumps held, version)
+        self.reader = DictChunkStore()
+        self.writer = self.reader
+        l0, l1 = 'cb-sdp-l0', 'cb-sdp-l1-flags'
+        v0 = self.values(0)
+        for name in ARRAYS:
+            prefix = l1 if (name == 'flags' and case.get('l1')) else l0
+            chunks = tuple(tuple(int(x) for x in c) for c in case['chunks'][name])
+            self.info[name] = {'prefix': prefix, 'chunks': chunks,
+                               'dtype': np.lib.format.dtype_to_descr(np.dtype(DTYPES[name])),
+                               'shape': tuple(int(s) for s in v0[name].shape)}
+            self.held[name] = (0, 0)
+            self.set_array(name, case['held0'][name], 0)
+        self.ts = None
+
+    def key(self, name):
+        return self.reader.join(self.info[name]['prefix'], name)
+
+    def set_array(self, name, dumps, ver):
+        chunks = self.info[name]['chunks']
+        old_n, _ = self.held[name]
+        if dumps:
+            self.reader.arrays[self.key(name)] = np.array(self.values(ver)[name][:dumps])     # a private copy the store owns
+        else:
+            self.reader.arrays.pop(self.key(name), None)
+        offs = offsets(chunks[0])
+        for idx in all_chunk_indices(chunks):
+            stop = int(offs[idx[0] + 1])
+            if stop <= dumps:
+                self.ops.append([1, ARRAYS.index(name), self.ident(name, idx), ver])
+            elif stop <= old_n:
+                self.ops.append([0, ARRAYS.index(name), self.ident(name, idx)])
+        self.held[name] = (dumps, ver)
+
+    def unchanged(self):
+        """Names of the arrays whose memory in the store no longer equals what was put there."""
+        bad = []
+        for name in ARRAYS:
+            n, ver = self.held[name]
+            if n and not np.array_equal(self.reader.arrays[self.key(name)], self.values(ver)[name][:n]):
+                bad.append(name)
+        return bad
